@@ -64,9 +64,19 @@ Fixpoint string_of_list (l : list ascii) : string :=
 Definition format_id (shard : N) : string :=
   (SHARD_PREFIX ++ string_of_list (hex_digits shard))%string.
 
-(** cache_dir.rs: validate_file_name looks at the first byte only. *)
-Definition valid_name (name : string) : bool :=
+(** cache_dir.rs: validate_file_name — non-empty, first byte not reserved, no
+    path separator anywhere (the last clause is the repair of finding F1). *)
+Fixpoint has_slash (s : string) : bool :=
+  match s with
+  | EmptyString => false
+  | String c s' => (Ascii.eqb c "/"%char || has_slash s')%bool
+  end.
+
+Definition valid_name_first_byte (name : string) : bool :=
   match name with
   | EmptyString => false
   | String a _ => negb (existsb (N.eqb (N_of_ascii a)) RESERVED_FIRST_BYTES)
   end.
+
+Definition valid_name (name : string) : bool :=
+  (valid_name_first_byte name && negb (has_slash name))%bool.
